@@ -15,7 +15,8 @@ def plan(tier, seed):
                 hj.append(cfg)
     # the same with a version that does not compile among those written
     for o0 in range(5):
-        hj.append({'n': 3 if quick else 4, 'auto_reload': True, 'o0': o0, 'init_version': o0 % 2, 'versions': [0, 3, 1]})
+        hj.append({'n': 3 if quick else 4, 'auto_reload': True, 'o0': o0, 'init_version': o0 % 2, 'versions': [0, 3, 1],
+                   'warm': o0 % 2 == 0})
     famH = dict(name='reload_histories', module=H, fn='history', jobs=hj, timeout=900 if quick else 3000, vacuity=1,
                 mutants=[{'name': 'keep_stale_macros', 'cfg': {'n': 3, 'auto_reload': True}},
                          {'name': 'mtime_truthy', 'cfg': {'n': 3, 'auto_reload': True}},
@@ -71,7 +72,7 @@ def plan(tier, seed):
                 'modification time symbolic (any integer >= 0 '
                 'that the file did not have before); after each use the result, and everything the instance holds (entry '
                 'points, content type, encoding), must be those of a freshly constructed template on the latest version, '
-                'and the number of compilations must equal the number of modifications observed; in a second set of histories one of the versions written does not compile: every use then raises the template error (nothing of an earlier version is served) until the file changes again. Two files: a page that uses a macro template next to it through load: -- every sequence of 3 (thorough 4) operations from {write page / part (2 versions each: with/without slot and filler), touch page / part, render the page} followed by a render, symbolic mtimes: the output is that of a fresh page on the latest versions of both files and each file is recompiled exactly when its own mtime changed. The 3 versions differ in '
+                'and the number of compilations must equal the number of modifications observed; in a second set of histories (some starting from an instance that has already served the initial version) one of the versions written does not compile: every use then raises the template error (nothing of an earlier version is served) until the file changes again. Two files: a page that uses a macro template next to it through load: -- every sequence of 3 (thorough 4) operations from {write page / part (2 versions each: with/without slot and filler), touch page / part, render the page} followed by a render, symbolic mtimes: the output is that of a fresh page on the latest versions of both files and each file is recompiled exactly when its own mtime changed. The 3 versions differ in '
                 'body, macro set ({m1}, {m1,m2}, {}) and content type/encoding (xml declaration, none, meta). Loader: '
                 'TemplateLoader.load for 12 spec forms (dotted, dot-less, padded, nested, dot in a directory, other '
                 'extension, absolute, package-relative) x a second spec, 1-3 search directories, default extension set '
